@@ -17,7 +17,7 @@ RULE = ("points in all quadrants / octants, on the axes, at the origin, with sig
         "each with raw and with already transformed input (transformed=True), must place every point in the same bin (exact comparison of "
         "contents), and in the bin given by the math module for points farther than 1e-9 from every edge; caller arrays must not be modified; "
         "(3) projections have the class given by the map and marginal contents; wrong dimensionality is refused; "
-        "non-trivial = >= 1 point on an axis or with a zero coordinate and >= 3 entry paths compared; distinct by hash of (class, bins, points)")
+        "separately passed coordinates of different element types (integer / float32 x with float64 y); projections and their sources re-inspected after one of them grew (adaptive bins); non-trivial = >= 1 point on an axis or with a zero coordinate and >= 3 entry paths compared; distinct by hash of (class, bins, points)")
 ASSUMPTIONS = ["points closer than 1e-9 to a bin edge are not judged against the math-module bin (only for path consistency)",
                "the default radius of cylindrical_surface() is the largest point radius (as chosen by the repair of the cylinder-surface cluster)"]
 
